@@ -7,6 +7,9 @@ Tie T: T15a (the two SCOORD3D guards of sr/sop.py and the verification guard of 
 guard of collect_evidence as a decision over (already seen, referenced)), T15c-e (predicates of find_content_items, parsed root
 attributes, enumerations), T15f / T15g (range guards, indices, loop body, merge and choices of the two from_segmentation builders)
 and T15h (guards and recording tests of _SR.__init__): bridges proved in Proofs/SREvidenceTie.lean.
+Round 2: Model/SRDocument.lean (constructSR: the constructors with every option; T15i), Model/SRTree.lean (arbitrary trees of
+data sets through the conversion, the document data set and the parser; T15j, T15d), T15k (parse entry points, read-back
+methods), T15l (key object selection document guards); streams `options` and `raw`.
 Oracle (independent of the model): the evidence partition recomputed as Python set algebra from the
 generator's *spec* of the tree (construction parameters) and the evidence list; the content tree compared by
 canonical dataset form in memory and after write -> srread; segmentation references recomputed from the
@@ -38,6 +41,13 @@ ASSUMPTIONS = [
     'dict/set iteration order = insertion order (CPython >= 3.7); the model groups in first-occurrence order',
     'per-item value validation (C13) is outside this model: generated items are valid',
     'a root container without a ContentSequence attribute is refused with AttributeError (modelled quirk; oracle neutral)',
+    'institutional_department_name without institution_name is dropped silently (behaviour of the code, modelled by constructSR via '
+    'Gen.srInstitutionStored; the oracle only demands that no department is recorded when none was given and that it is the one '
+    'given when both are)',
+    'raw stream: the value of an attribute is opaque to the model (a digest); data sets are plain pydicom objects, as a third '
+    "party's reader hands them over (a highdicom ContentSequence cannot even be deep-copied once an item lost its concept name)",
+    'an item of value type IMAGE / COMPOSITE / SCOORD / SCOORD3D / TCOORD / WAVEFORM may lack its concept name (type 1C): the '
+    'document then carries the name (260753009, SCT, Source) the parsers store, and searches treat the item as carrying it',
 ]
 MODELLED_NOT_VERIFIED = ['pydicom Dataset deepcopy / equality', 'pydicom dcmwrite / dcmread', 'SOPClass.__init__ attribute checks',
                          'ContentItem._from_dataset_derived (C13)']
